@@ -201,6 +201,9 @@ pub struct EvidenceInput<'a> {
 }
 
 pub fn write_evidence(e: EvidenceInput) {
+    if std::env::var("VERIF_NO_EVIDENCE").is_ok() {
+        return; // determinism self-test: must not overwrite the evidence of a real check
+    }
     let s = e.summary;
     let distinct = s.fingerprints.len() as u64 + s.weighted_distinct.values().sum::<u64>();
     let per_hour = if e.wall_s > 0.0 { (s.runs as f64 / e.wall_s * 3600.0) as u64 } else { 0 };
